@@ -50,6 +50,29 @@ def handle (inp out : String) : String :=
       let doc := s!"{b01 (1 ≤ n && n ≤ 20)} {b01 (100 ≤ n && n ≤ 20000)} {b01 (1 ≤ n && n ≤ 16000)} {b01 (1136073600 ≤ n)}"
       verdict "pred" ms out (if out != doc then some "range-predicate-differs-from-documented-range" else none)
     | none => "skip bad-pred"
+  | ["hapush", n, cs] =>
+    -- what the user's (context-level) callback is told: the consolidated configuration, each time a pushed one changed it
+    match ((cs.splitOn ";").map (· ++ ":x:x")).mapM parseConf with
+    | some confs =>
+      let (_, told) := confs.foldl (fun (acc : Conf × List Conf) c =>
+        let ha' := consolidate acc.1 c
+        if ha' == acc.1 then acc else (ha', acc.2 ++ [ha'])) (({} : Conf), [])
+      let sh (c : Conf) := s!"C{optS c.maxLevel}:{optS c.aggrPeriod}:{optS c.maxRequests}"
+      let ms := if told.isEmpty then "-" else " ".intercalate (told.map sh)
+      -- the documented contract: the user only ever sees values inside the documented ranges
+      let inRange (w : String) : Bool :=
+        match (w.drop 1).toString.splitOn ":" with
+        | [l, p, r] =>
+          (l == "x" || (match l.toNat? with | some v => 1 ≤ v && v ≤ 20 | none => false)) &&
+          (p == "x" || (match p.toNat? with | some v => 100 ≤ v && v ≤ 20000 | none => false)) &&
+          (r == "x" || (match r.toNat? with | some v => 1 ≤ v && v ≤ 16000 | none => false))
+        | _ => false
+      let spec : Option String :=
+        if out != "-" && !(ow.all inRange) then some "the-user-is-told-a-configuration-value-outside-the-documented-range"
+        else if out != "-" && ow.length > confs.length then some "the-user-is-told-more-configurations-than-were-pushed"
+        else none
+      verdict s!"hapush:n{n}:told{told.length}" ms out spec
+    | none => "skip bad-hapush"
   | ["cons", cs] =>
     match (cs.splitOn ";").mapM parseConf with
     | some confs =>
